@@ -38,6 +38,7 @@ type Scenario struct {
 	Ticks      int    `json:"ticks"`
 	Revoke     bool   `json:"revoke"`
 	SamePart   bool   `json:"samePart"` // workers share partitions (else worker i starts at partition i)
+	StaleSK    bool   `json:"staleSK"`  // after the warm-up the clock jumps past the revoke-check interval: every cached key is stale when the workers start
 	Churn      bool   `json:"churn"`    // all workers but the last hold partition 0; the last one cycles through the others (evicting it)
 }
 
@@ -100,6 +101,9 @@ func runOnce(sc Scenario, s *vrt.Sched, seed int64) (out outcome) {
 				panic(err)
 			}
 			sess.Close()
+		}
+		if sc.StaleSK {
+			vrt.SetModelTime(vrt.ModelTime() + sc.R + 1)
 		}
 		w.Emit(fakes.Event{"e": "warm"})
 		for g := 0; g < sc.Workers; g++ {
@@ -210,8 +214,12 @@ func emitRun(tw *vutil.TraceWriter, run int, sc Scenario, strat string, o outcom
 	tw.Emit(map[string]interface{}{"e": "reset", "run": run, "scenario": scm, "strategy": strat, "choices": o.Choices})
 	for _, e := range o.Events {
 		switch e["e"] {
-		case "ms", "kms", "aead", "warm", "tick", "revoke":
+		case "ms", "aead", "tick", "revoke":
 			continue
+		case "kms":
+			if !sc.StaleSK {
+				continue
+			}
 		}
 		e["run"] = run
 		delete(e, "now")
